@@ -571,6 +571,23 @@ func (h *hist) step(k int) string {
 			return "read-in-read-only-txn"
 		}
 		switch {
+		case w < 6:
+			// a statement the engine rejects before executing anything (syntax error, unknown table, unknown
+			// column) inside the open transaction - explicit, or the implicit one of an autocommit=0 session:
+			// it must fail and leave the transaction, with everything it has written so far, as it is
+			q := []string{"SELECT nosuchcol FROM t", "INSERT INTO nosuchtable VALUES (1, 2, 3)", "SELEC 1 FROM t", "UPDATE t SET nosuchcol = 1", "DELETE FROM t WHERE nosuchcol = 1"}[rnd.Intn(5)]
+			res := h.exec(k, "rejected-before-execution", q)
+			h.r.Eval(1)
+			if res.Panic != nil || res.TimedOut {
+				h.expectOK(k, "rejected-before-execution", q, res)
+				return "txn-rejected-before-execution"
+			}
+			if !res.Failed() {
+				h.r.Violation("invalid-statement-accepted", h.witness(map[string]any{"statement": q, "session": k}))
+				h.stop = true
+			}
+			h.r.Count("rejected-before-execution-in-txn", 1)
+			return "txn-rejected-before-execution"
 		case w < 55:
 			return "txn-" + h.randomWrite(k, true)
 		case w < 68:
